@@ -70,6 +70,8 @@ pub enum Arg {
     Col(u8),
     ColOpVal(u8, u8, V),
     ValOpVal(V, u8, V),
+    /// `Expr::val(v).as_enum("etype")`: the one expression kind a backend (Postgres) renders through an override of its own
+    EnumCast(V),
 }
 
 #[derive(Serialize, Deserialize, Clone, Copy, Debug, PartialEq, Eq, Hash)]
@@ -150,6 +152,7 @@ fn arg_expr(a: &Arg) -> SimpleExpr {
         Arg::Col(i) => Expr::col(Alias::new(COLN[*i as usize % 4])).into(),
         Arg::ColOpVal(c, o, v) => Expr::col(Alias::new(COLN[*c as usize % 4])).binary(BINOPS[*o as usize % 5].1, Expr::val(v.to_value())),
         Arg::ValOpVal(l, o, r) => Expr::val(l.to_value()).binary(BINOPS[*o as usize % 5].1, Expr::val(r.to_value())),
+        Arg::EnumCast(v) => Expr::val(v.to_value()).as_enum(Alias::new("etype")),
     }
 }
 
@@ -159,6 +162,7 @@ fn arg_to_val(a: &Arg) -> V {
         Arg::Col(i) => V::Int(*i as i64),
         Arg::ColOpVal(_, _, v) => v.clone(),
         Arg::ValOpVal(l, _, _) => l.clone(),
+        Arg::EnumCast(v) => v.clone(),
     }
 }
 
@@ -197,6 +201,14 @@ impl Out {
                 let lt = self.val(l);
                 let rt = self.val(r);
                 format!("{} {} {}", lt, BINOPS[*o as usize % 5].0, rt)
+            }
+            Arg::EnumCast(v) => {
+                let x = self.val(v);
+                if self.d == Dialect::Postgres {
+                    format!("CAST({x} AS \"etype\")")
+                } else {
+                    x
+                }
             }
         }
     }
@@ -732,6 +744,7 @@ fn arg() -> impl Strategy<Value = Arg> {
         2 => (0u8..4).prop_map(Arg::Col),
         2 => (0u8..4, 0u8..5, v()).prop_map(|(c, o, x)| Arg::ColOpVal(c, o, x)),
         1 => (v(), 0u8..5, v()).prop_map(|(l, o, r)| Arg::ValOpVal(l, o, r)),
+        1 => v().prop_map(Arg::EnumCast),
     ]
 }
 
@@ -791,7 +804,7 @@ fn nth_exhaustive(i: u64) -> Case {
     let args = if api == Api::Values {
         vec![Arg::Val(V::Text("v?$1'".into())), Arg::Val(V::Int(7))]
     } else {
-        vec![Arg::Col(0), Arg::ColOpVal(1, 0, V::Text("$2?".into()))]
+        vec![Arg::EnumCast(V::Int(3)), Arg::ColOpVal(1, 0, V::Text("$2?".into()))]
     };
     Case::Tmpl(TCase { dialect, api, lead: None, segs, args })
 }
